@@ -156,6 +156,9 @@ func Solve(o *Obligation, dir string, idx int, timeoutS int) *Outcome {
 		return res
 	}
 	res.File = file
+	if o.ExpectSat && timeoutS > 3 {
+		timeoutS = 3 // vacuity canaries: a quick satisfiability probe, inconclusive is acceptable
+	}
 	start := time.Now()
 	finish := func(verdict, solver, out string) *Outcome {
 		res.Seconds = time.Since(start).Seconds()
